@@ -10,6 +10,12 @@ verdict, raising agent, neutral UNKNOWN/DEFER mismatch, repeated prompt = cache 
 last-failure + timeout + {-1, -0.001, 0, +0.001, +1, long}, plain forward/backward jumps,
 reset_circuit_breaker.
 
+Every 5th run is a threads plan: sequential pre-phase (usually trips the breaker and moves the clock),
+2-3 tasks x 1-2 requests overlapping on the one loop under the seeded line-granularity scheduler (half of
+them under an explicit one- or two-pre-emption schedule), then a sequential continuation judged by the
+same automaton.  While requests overlap only clauses that are well defined under overlap are judged
+(see _run_threads and notes/C08.md).
+
 Oracle: clause by clause on get_circuit_breaker_stats() read before/after each request, the fakes' call
 counters and the budget balance.  The class of a request comes from the *scripted verdicts*, never from
 the LoopResult; requests whose class the statement does not fix are neutral (they may or may not be a
@@ -18,8 +24,10 @@ failure: the harness then keeps a set of candidate "last failure" instants and a
 from __future__ import annotations
 
 from opsim import seams
-from opsim.core import CLOCK, EPOCH
-from opsim.sched import SeqTracer
+import sys
+
+from opsim.core import CLOCK, EPOCH, derive, HarnessError
+from opsim.sched import SeqTracer, Sched
 from opsim.util import call, weighted
 
 from operon_ai.topology.loops import CoherentFeedForwardLoop, GateLogic
@@ -28,19 +36,24 @@ from operon_ai.state.metabolism import ATP_Store
 
 ID = "C08"
 LEVEL = "exploration"
-ENGINE = "seq"
-RUNS = {"quick": 60_000, "thorough": 2_000_000}
+ENGINE = "seq+threads"
+RUNS = {"quick": 30_000, "thorough": 1_500_000}
+THREADS_EVERY = 5      # every 5th run index is a threads plan
 RULE = ("seeded histories of 2-8 requests (quick; up to 14 thorough) whose outcome is scripted through the two agents' "
         "verdicts {success, intentional block, executor FAILURE verdict, raising agent, UNKNOWN/DEFER mismatch, repeated "
         "prompt (cache hit)}, interleaved with clock moves to last-failure + recovery timeout + {-1 s, -1 ms, 0, +1 ms, "
         "+1 s, long}, plain forward and backward jumps and reset_circuit_breaker, over thresholds 1..4, timeouts "
         "1/30/60 s, cache on/off, six gate logics, breaker enabled/disabled; generation is biased to trip the breaker "
-        "first and to place clock moves and probes inside the open period; non-trivial = a history in which the breaker "
-        "left CLOSED; distinct = distinct (configuration, operation list)")
+        "first and to place clock moves and probes inside the open period; every 5th run is a threads plan: a sequential "
+        "pre-phase (trip the breaker / move the clock), then 2-3 tasks x 1-2 requests overlapping on the one loop under "
+        "seeded schedules (serial, uniform, sticky, pct, lock-biased; decision at every source line of loops.py and every "
+        "lock operation), then a sequential continuation after quiescence; non-trivial = a history in which the breaker "
+        "left CLOSED (threads plans: additionally at least one pre-emption inside run()); distinct = distinct "
+        "(configuration, operation lists)")
 COMPONENTS = {"real": ["operon_ai.topology.loops.CoherentFeedForwardLoop (run, breaker, cache)",
                        "operon_ai.state.metabolism.ATP_Store (shared budget the fakes spend from)"],
               "stub": ["executor / assessor agents (scripted fakes that spend energy)", "datetime.now (virtual clock)",
-                       "threading.Lock (SimLock)"]}
+                       "threading.Lock (SimLock)", "the OS scheduler (seeded line-granularity scheduler, threads family)"]}
 ASSUMPTIONS = [
     "definite failures are: an agent raising, and an executor FAILURE verdict beside an assessor PERMIT under AND / "
     "UNANIMOUS / ASSESSOR_PRIORITY; definite successes: both agents permit and the reply is not blocked; intentional "
@@ -51,12 +64,19 @@ ASSUMPTIONS = [
     "a cache hit and an intentional block interrupt a run of consecutive failures (the weaker reading)",
     "'the timeout has elapsed' includes the instant exactly at last failure + timeout",
     "a request admitted while the breaker reports OPEN or HALF_OPEN is a probe; any number of probes may be admitted",
-    "the state reported by get_circuit_breaker_stats() before a request is the state that request meets",
+    "the state reported by get_circuit_breaker_stats() before a request is the state that request meets (sequential phases only)",
+    "threads family: pre-emption granularity is the source line of loops.py; stats are sampled atomically (tracing "
+    "suspended for the getter); a sample showing CLOSED with failure_count 0 is a point from which 'in total' restarts; "
+    "while requests overlap only early_open, the CIRCUIT_OPEN-reply contract, certain-isolation, all-failing late_open "
+    "and the disabled clause are judged (see notes/C08.md for why the others are not)",
 ]
 EXPECT_PROBES = ("opened", "half_open_seen", "probe_success_closed", "probe_failed_reopened", "isolated_request",
                  "admitted_exactly_at_timeout", "isolated_just_below_timeout", "clock_backward_while_open",
                  "reset_while_open", "block_with_failures_pending", "cache_hit_while_not_closed", "breaker_disabled",
-                 "executor_failure_in_window", "neutral_request")
+                 "executor_failure_in_window", "neutral_request",
+                 "threads_run", "overlapping_requests", "overlap_while_recovering", "closed_zero_sample_during_overlap",
+                 "overlap_all_failing_judged", "overlap_certainly_open_judged", "post_continuation_request",
+                 "preempted_while_holding_a_lock")
 
 EXEC_PERMITS = ("EXECUTE", "PERMIT")
 EXC = {"RuntimeError": RuntimeError, "ValueError": ValueError, "TimeoutError": TimeoutError, "KeyError": KeyError}
@@ -107,7 +127,101 @@ def _pair(rng, c, profile):
                             ["UNKNOWN", "PERMIT"], ["FAILURE", "DEFER"]]))
 
 
+# pct estimates are scaled to the size of the overlapping phase in _gen_threads (est = steps per request x requests)
+STRATEGIES = [(1, {"kind": "serial"}), (2, {"kind": "uniform"}), (2, {"kind": "sticky", "p": 0.7}),
+              (3, {"kind": "sticky", "p": 0.9}), (2, {"kind": "sticky", "p": 0.97}), (4, {"kind": "pct", "d": 1}),
+              (4, {"kind": "pct", "d": 2}), (2, {"kind": "pct", "d": 3}), (2, {"kind": "lock_biased", "k": 4})]
+STEPS_PER_REQUEST = 60
+
+
+def _few_preemptions(rng, plan):
+    """Half of the threads plans carry an explicit schedule instead of a seeded strategy: task a runs, is pre-empted
+    at its n-th decision point in favour of task b, which runs on (to completion unless pre-empted in turn after m
+    more decision points).  Most check-then-act races need exactly one or two pre-emptions at the right line;
+    drawing the line uniformly reaches each of them far more often than a random walk over all decisions."""
+    x = rng.random()
+    if x >= 0.5:
+        return
+    nt = len(plan["tasks"])
+    a = rng.randrange(nt)
+    b = rng.choice([t for t in range(nt) if t != a])
+    sw = [[0, a]] if a != 0 else []
+    n = rng.randrange(1, 80)
+    sw.append([n, b])
+    if x < 0.15:
+        sw.append([n + rng.randrange(1, 80), a if nt == 2 or rng.random() < 0.6 else rng.choice([t for t in range(nt) if t not in (a, b)])])
+    plan["config"]["strategy"] = {"kind": "replay", "preemptions": len(sw) - (1 if a != 0 else 0)}
+    plan["switches"] = sw
+
+
+def _gen_threads(rng, tier):
+    thr = rng.choice([1, 2, 2, 2, 3, 3, 4])
+    timeout = rng.choice([1.0, 30.0, 60.0])
+    cfg = {"threshold": thr, "timeout": timeout, "logic": weighted(rng, LOGICS),
+           "breaker": rng.random() < 0.93, "cache": rng.random() < 0.3, "ttl": 300.0,
+           "strategy": dict(weighted(rng, STRATEGIES))}
+    profile = weighted(rng, [(3, "exc"), (3, "fail"), (4, "mixed")])
+    scenario = weighted(rng, [(4.5, "open_elapsed"), (2.5, "closed"), (1.5, "open_young"), (1.5, "random")])
+    pid = [0]
+
+    def req(c):
+        pid[0] += 1
+        return ["req", pid[0] - 1] + _pair(rng, c, profile)
+
+    pre = []
+    if scenario in ("open_elapsed", "open_young"):
+        if rng.random() < 0.3:
+            pre.append(req(rng.choice(["success", "block"])))
+        pre += [req("failure") for _ in range(thr + (1 if rng.random() < 0.15 else 0))]
+        if scenario == "open_elapsed":
+            pre.append(["clock", "rel", rng.choice([0.0, 0.001, 1.0, 3 * timeout])])
+        elif rng.random() < 0.5:
+            pre.append(["clock", "rel", rng.choice([-1.0, -0.001])])
+    elif scenario == "closed":
+        pre += [req("failure") for _ in range(rng.randint(0, thr - 1))] if rng.random() < 0.5 else []
+    else:
+        for _ in range(rng.randint(0, 3)):
+            pre.append(req(weighted(rng, [(2, "success"), (4, "failure"), (1, "block"), (1, "neutral")])))
+    all_fail = scenario == "closed" and rng.random() < 0.6
+    ntasks = 2 if rng.random() < 0.7 else 3
+    tasks = []
+    for t in range(ntasks):
+        ops = []
+        for _ in range(rng.choice([1, 1, 2])):
+            if all_fail:
+                c = "failure"
+            elif scenario == "open_elapsed":
+                c = weighted(rng, [(4, "success"), (4, "failure"), (0.7, "block"), (0.5, "neutral")])
+            else:
+                c = weighted(rng, [(2, "success"), (4, "failure"), (1, "block"), (0.6, "neutral")])
+            if scenario == "random" and rng.random() < 0.12:
+                ops.append(["clock", "adv", rng.choice([0.5, timeout / 2, timeout, 2 * timeout])])
+            if scenario == "random" and rng.random() < 0.05:
+                ops.append(["reset"])
+            if cfg["cache"] and pid[0] and rng.random() < 0.15:
+                ops.append(["req", rng.randrange(pid[0])] + _pair(rng, c, profile))
+            else:
+                ops.append(req(c))
+        tasks.append(ops)
+    post = []
+    for _ in range(rng.randint(1, 3)):
+        x = rng.random()
+        if x < 0.3:
+            post.append(["clock", "rel", rng.choice([-1.0, -0.001, 0.0, 0.001, 1.0])])
+        elif x < 0.36:
+            post.append(["clock", "adv", -rng.choice([0.5, timeout])])
+        post.append(req(weighted(rng, [(3, "success"), (4, "failure"), (1, "block"), (0.6, "neutral")])))
+    if cfg["strategy"]["kind"] == "pct":
+        nreq = sum(1 for ops in tasks for op in ops if op[0] == "req")
+        cfg["strategy"]["est"] = max(20, int(STEPS_PER_REQUEST * nreq * rng.choice([0.5, 1.0, 1.0])))
+    plan = {"family": "threads", "config": cfg, "pre": pre, "tasks": tasks, "post": post}
+    _few_preemptions(rng, plan)
+    return plan
+
+
 def gen(rng, tier, i):
+    if i % THREADS_EVERY == 0:
+        return _gen_threads(rng, tier)
     thr = rng.choice([1, 2, 2, 3, 3, 4])
     timeout = rng.choice([1.0, 30.0, 60.0])
     cfg = {"threshold": thr, "timeout": timeout, "logic": weighted(rng, LOGICS),
@@ -155,50 +269,86 @@ def gen(rng, tier, i):
     return {"config": cfg, "ops": ops}
 
 
+def _op_lists(plan):
+    out = [((key,), plan[key]) for key in ("ops", "pre", "post") if isinstance(plan.get(key), list)]
+    out += [(("tasks", j), t) for j, t in enumerate(plan.get("tasks") or [])]
+    return out
+
+
+def _with(plan, path, ops):
+    new = dict(plan)
+    if len(path) == 1:
+        new[path[0]] = ops
+    else:
+        new["tasks"] = [list(t) for t in plan["tasks"]]
+        new["tasks"][path[1]] = ops
+    return new
+
+
 def simplify(plan):
     cfg = plan["config"]
+    if plan.get("family") == "threads" and len(plan["tasks"]) > 2:
+        for j in range(len(plan["tasks"])):
+            yield {**plan, "tasks": [t for jj, t in enumerate(plan["tasks"]) if jj != j], "switches": []}
     for key, small in (("cache", False), ("logic", "AND"), ("ttl", 300.0), ("timeout", 1.0)):
         if cfg[key] != small:
             yield {**plan, "config": {**cfg, key: small}}
     for small in (1, 2, 3):
         if small < cfg["threshold"]:
             yield {**plan, "config": {**cfg, "threshold": small}}
-    pids = sorted({op[1] for op in plan["ops"] if op[0] == "req"})
+    lists = _op_lists(plan)
+    pids = sorted({op[1] for _, ops in lists for op in ops if op[0] == "req"})
     if pids != list(range(len(pids))):
         remap = {p: j for j, p in enumerate(pids)}
-        yield {**plan, "ops": [([op[0], remap[op[1]]] + list(op[2:])) if op[0] == "req" else list(op) for op in plan["ops"]]}
-    for j, op in enumerate(plan["ops"]):
-        if op[0] == "req":
-            for pos in (2, 3):
-                if op[pos].startswith("raise:") and op[pos] != "raise:RuntimeError":
-                    ops = [list(o) for o in plan["ops"]]
-                    ops[j][pos] = "raise:RuntimeError"
-                    yield {**plan, "ops": ops}
-        if op[0] == "clock" and op[1] == "rel" and op[2] not in (0.0, 1.0, -1.0, 0.001, -0.001):
-            ops = [list(o) for o in plan["ops"]]
-            ops[j][2] = 1.0
-            yield {**plan, "ops": ops}
+        new = plan
+        for path, old in lists:
+            new = _with(new, path, [([op[0], remap[op[1]]] + list(op[2:])) if op[0] == "req" else list(op) for op in old])
+        yield new
+    for path, old in lists:
+        for j, op in enumerate(old):
+            if op[0] == "req":
+                for pos in (2, 3):
+                    if op[pos].startswith("raise:") and op[pos] != "raise:RuntimeError":
+                        ops = [list(o) for o in old]
+                        ops[j][pos] = "raise:RuntimeError"
+                        yield _with(plan, path, ops)
+            if op[0] == "clock" and op[1] == "rel" and op[2] not in (0.0, 1.0, -1.0, 0.001, -0.001):
+                ops = [list(o) for o in old]
+                ops[j][2] = 1.0
+                yield _with(plan, path, ops)
 
 
 # ----------------------------------------------------------------------------------------- fakes
-class Fake:
-    def __init__(self, name, role, k, budget):
-        self.name, self.role, self.k, self.budget = name, role, k, budget
+class Req:
+    __slots__ = ("ez_script", "ay_script", "ez", "ay", "calls")
+
+    def __init__(self, ez, ay):
+        self.ez_script, self.ay_script = ez, ay
+        self.ez = self.ay = None
         self.calls = 0
-        self.script = None
-        self.gave = None
+
+
+class Fake:
+    """Scripted agent; answers with the verdict the calling task's current request carries and spends energy."""
+
+    def __init__(self, name, role, w):
+        self.name, self.role, self.w = name, role, w
 
     def express(self, signal):
-        self.calls += 1
-        v = self.script
-        self.gave = v
-        self.budget.consume(COST, "fake-" + self.role)
-        self.k.ev("express", [self.role, v])
+        w = self.w
+        r = w.cur_req[w.who()]
+        r.calls += 1
+        if self.role == "executor":
+            v = r.ez = r.ez_script
+        else:
+            v = r.ay = r.ay_script
+        w.budget.consume(COST, "fake-" + self.role)
+        w.k.ev("express", [self.role, v])
         if v.startswith("raise:"):
-            self.k.fault("collab_raise")
+            w.k.fault("collab_raise")
             raise EXC[v[6:]]("scripted failure of " + self.role)
         if v in ("UNKNOWN", "DEFER"):
-            self.k.fault("collab_adversarial_value")
+            w.k.fault("collab_adversarial_value")
         return ActionProtein(v, f"{self.role} says {v}", 0.9, source_agent=self.name)
 
 
@@ -214,223 +364,473 @@ def kinds(seq):
     return "+".join(sorted(set(seq))) or "none"
 
 
-# ----------------------------------------------------------------------------------------- run
-def run(plan, k):
-    cfg = plan["config"]
-    thr, logic, enabled = cfg["threshold"], cfg["logic"], cfg["breaker"]
-    timeout_us = int(round(cfg["timeout"] * 1_000_000))
-    budget = ATP_Store(budget=1_000_000, silent=True)
-    loop = CoherentFeedForwardLoop(budget=budget, gate_logic=GateLogic[logic], enable_circuit_breaker=enabled,
-                                   failure_threshold=thr, recovery_timeout_seconds=cfg["timeout"],
-                                   enable_cache=cfg["cache"], cache_ttl_seconds=cfg["ttl"], silent=True)
-    seams.assert_sim_lock(loop)
-    ex, asr = Fake("Z-exec", "executor", k, budget), Fake("Y-risk", "assessor", k, budget)
-    loop.executor, loop.assessor = ex, asr
-    k.key = [cfg, plan["ops"]]
-    if not enabled:
-        k.probe("breaker_disabled")
+# ----------------------------------------------------------------------------------------- world + automaton
+class World:
+    def __init__(self, plan, k, sched=None):
+        self.plan, self.k, self.sched = plan, k, sched
+        cfg = self.cfg = plan["config"]
+        self.thr, self.logic, self.enabled = cfg["threshold"], cfg["logic"], cfg["breaker"]
+        self.timeout_us = int(round(cfg["timeout"] * 1_000_000))
+        self.budget = ATP_Store(budget=1_000_000, silent=True)
+        self.loop = CoherentFeedForwardLoop(
+            budget=self.budget, gate_logic=GateLogic[self.logic], enable_circuit_breaker=self.enabled,
+            failure_threshold=self.thr, recovery_timeout_seconds=cfg["timeout"], enable_cache=cfg["cache"],
+            cache_ttl_seconds=cfg["ttl"], silent=True)
+        seams.assert_sim_lock(self.loop)
+        self.cur_req = {}
+        self.loop.executor, self.loop.assessor = Fake("Z-exec", "executor", self), Fake("Y-risk", "assessor", self)
+        if not self.enabled:
+            k.probe("breaker_disabled")
+        self.f_hi = 0          # possible failures since construction / last close / reset
+        self.window = []       # kinds of those possible failures
+        self.streak = []       # kinds of the current run of consecutive definite failures
+        self.cands = []        # [instant, kind] candidates for "the last failure"
+        self.answered = {}     # prompt id -> class of its latest fresh, non-raising reply (what a cache may hold)
+        self.left_closed = False
+        self.tick = 0
+        self.last = None       # record of the latest sequential request
 
-    f_hi = 0          # possible failures since construction / last close / reset
-    window = []       # kinds of those possible failures
-    streak = []       # kinds of the current run of consecutive definite failures
-    cands = []        # [instant, kind] candidates for "the last failure"
-    answered = {}     # prompt id -> class of its latest fresh, non-raising reply (what a cache may hold)
-    left_closed = False
+    def who(self):
+        s = self.sched
+        return s.cur.name if (s is not None and s.cur is not None) else "main"
 
-    def stats():
-        s = loop.get_circuit_breaker_stats()
-        return s.state.name, s.failure_count, s.trips_count
+    def stats(self, atomic=False):
+        """Sample of the public stats; atomic = no scheduling decision inside the getter (for scheduled tasks)."""
+        if not atomic:
+            s = self.loop.get_circuit_breaker_stats()
+            return s.state.name, s.failure_count, s.trips_count
+        old = sys.gettrace()
+        sys.settrace(None)
+        try:
+            s = self.loop.get_circuit_breaker_stats()
+            return s.state.name, s.failure_count, s.trips_count
+        finally:
+            sys.settrace(old)
 
-    def clear():
-        nonlocal f_hi
-        f_hi = 0
-        del window[:], streak[:], cands[:]
+    def clear(self):
+        self.f_hi = 0
+        del self.window[:], self.streak[:], self.cands[:]
 
-    with SeqTracer(k, [seams.src("operon_ai/topology/loops.py")], 20_000) as tr:
-        for op in plan["ops"]:
-            name = op[0]
-            if name == "clock":
-                if op[1] == "rel":
-                    base = cands[-1][0] if cands else CLOCK.now
-                    target = base + cfg["timeout"] + op[2]
-                    k.fault("clock_boundary")
-                else:
-                    target = CLOCK.now + op[2]
-                dt = target - CLOCK.now
-                set_clock(target)
-                k.fault("clock_backward" if dt < 0 else "clock_forward")
-                if dt < 0 and stats()[0] != "CLOSED":
-                    k.probe("clock_backward_while_open")
-                k.ev("clock", us(CLOCK.now))
-                continue
-            if name == "reset":
-                s0 = stats()[0]
-                out = call(loop.reset_circuit_breaker, tracer=tr)
-                k.ev("reset", out.brief())
-                if not out.ok:
-                    k.violation("returns", out.kind, "reset_circuit_breaker")
-                    return
-                if s0 != "CLOSED":
-                    k.probe("reset_while_open")
-                if stats()[0] == "CLOSED":
-                    clear()
-                continue
+    def invoke(self, op, tracer=None):
+        r = Req(op[2], op[3])
+        self.cur_req[self.who()] = r
+        self.tick += 1
+        rec = {"pid": op[1], "inv": self.tick, "t_inv": CLOCK.now}
+        out = call(self.loop.run, f"request #{op[1]}", tracer=tracer)
+        self.tick += 1
+        rec.update(ret=self.tick, t_ret=CLOCK.now, out=out, asked=r.calls > 0, calls=r.calls, ez=r.ez, ay=r.ay)
+        if out.kind == "ok":
+            rec["action"], rec["blocked"] = str(out.value.action), bool(out.value.blocked)
+        return rec
 
-            pid, prompt = op[1], f"request #{op[1]}"
-            ex.script, asr.script = op[2], op[3]
-            ex.gave = asr.gave = None
-            c_e, c_a = ex.calls, asr.calls
-            s0, fc0, trips0 = stats()
-            bal0 = budget.get_balance()
-            now = us(CLOCK.now)
-            out = call(loop.run, prompt, tracer=tr)
-            asked = (ex.calls - c_e) + (asr.calls - c_a) > 0
-            ez, ay = ex.gave, asr.gave
-            if out.kind != "ok":
-                k.ev("req", [pid, ez, ay, out.brief()])
-                kind = {"deadlock": "self_deadlock", "step_budget": "no_return_within_step_budget"}.get(
-                    out.kind, "raised:" + type(out.exc).__name__)
-                k.violation("returns", kind, s0, "; ".join(getattr(out.exc, "chain", [])) or repr(out.exc)[:160])
-                return
-            res = out.value
-            action, blocked = str(res.action), bool(res.blocked)
-            s1, fc1, trips1 = stats()
-            spent = bal0 - budget.get_balance()
-            k.ev("req", [pid, ez, ay, asked, action, blocked, s0, s1, fc1, spent])
-            if s1 != "CLOSED":
-                left_closed = True
-                k.probe("opened" if s1 == "OPEN" else "half_open_seen")
+    def not_returned(self, rec, site):
+        out = rec["out"]
+        if out.kind == "ok":
+            return False
+        kind = {"deadlock": "self_deadlock", "step_budget": "no_return_within_step_budget"}.get(
+            out.kind, "raised:" + type(out.exc).__name__)
+        self.k.violation("returns", kind, site, "; ".join(getattr(out.exc, "chain", [])) or repr(out.exc)[:160])
+        return True
 
-            # ------------------------------------------------ clause: breaker disabled => agents always consulted
-            if not enabled:
-                if action == "CIRCUIT_OPEN":
-                    k.violation("disabled", "circuit_open_reply_with_breaker_disabled", "reply")
-                elif not asked and not (cfg["cache"] and pid in answered):
-                    k.violation("disabled", "agents_not_consulted", "reply", f"action={action}")
-                if asked and not ((ez or "").startswith("raise:") or (ay or "").startswith("raise:")):
-                    answered[pid] = classify(logic, ez, ay)
-                continue
+    def judge_disabled(self, rec, seen_before):
+        k = self.k
+        if rec["action"] == "CIRCUIT_OPEN":
+            k.violation("disabled", "circuit_open_reply_with_breaker_disabled", "reply")
+        elif not rec["asked"] and not (self.cfg["cache"] and seen_before):
+            k.violation("disabled", "agents_not_consulted", "reply", f"action={rec['action']}")
 
-            elapsed = [now - us(t) for t, _ in cands]
-            isolation_due = s0 == "OPEN" and bool(cands) and all(e < timeout_us for e in elapsed)
-            recovery_due = s0 == "OPEN" and bool(cands) and all(e >= timeout_us for e in elapsed)
-            csite = kinds(c[1] for c in cands)
-            if "fail" in csite or "fail" in streak:
-                k.probe("executor_failure_in_window")
-
-            # ------------------------------------------------ clause: isolation while open
-            if isolation_due:
-                if action != "CIRCUIT_OPEN":
-                    k.violation("isolation", "admitted_before_timeout", csite,
-                                f"elapsed={max(elapsed)}us timeout={timeout_us}us action={action} asked={asked}")
-                elif not blocked:
-                    k.violation("isolation", "circuit_open_reply_not_blocked", csite)
-                if asked:
-                    k.violation("isolation", "agents_invoked_while_open", csite)
-                if spent:
-                    k.violation("isolation", "energy_spent_while_open", csite, f"spent={spent}")
-                if 0 < timeout_us - max(elapsed) <= 1000 and action == "CIRCUIT_OPEN":
-                    k.probe("isolated_just_below_timeout")
-            # ------------------------------------------------ clause: recovery after the timeout
-            elif recovery_due and action == "CIRCUIT_OPEN":
-                k.violation("recovery", "not_admitted_after_timeout", csite,
-                            f"elapsed={min(elapsed)}us timeout={timeout_us}us")
-            elif recovery_due and min(elapsed) == timeout_us:
-                k.probe("admitted_exactly_at_timeout")
-            if s0 == "CLOSED" and action == "CIRCUIT_OPEN":
-                k.violation("early_open", "circuit_open_reply_while_closed", kinds(window))
-
-            if action == "CIRCUIT_OPEN":
-                k.probe("isolated_request")
-                if not isolation_due:
-                    if asked or spent:
-                        k.violation("isolation", "agents_invoked_for_circuit_open_reply", csite, f"asked={asked} spent={spent}")
-                    if not blocked:
-                        k.violation("isolation", "circuit_open_reply_not_blocked", csite)
-                continue
-
-            probe_ctx = s0 in ("OPEN", "HALF_OPEN")
-
-            if not asked:
-                # admitted but answered without the agents: a cache hit
-                c = answered.get(pid, "neutral")
-                if s0 != "CLOSED":
-                    k.probe("cache_hit_while_not_closed")
-                del streak[:]
-                if c not in ("success", "block"):
-                    f_hi += 1
-                    window.append("cached")
-                    cands.append([CLOCK.now, "cached"])
-                if s0 == "CLOSED" and s1 == "OPEN" and (c in ("success", "block") or f_hi < thr):
-                    k.violation("early_open", "opened_by_cache_hit", kinds(window))
-                if probe_ctx and s1 == "CLOSED":
-                    clear()
-                continue
-
-            c = classify(logic, ez, ay)
-            if c == "success" and blocked:
-                c = "neutral"
-            raising = c == "exc"
-            if not raising:
-                answered[pid] = c
-
-            if c == "success":
-                if probe_ctx:
-                    if s1 != "CLOSED":
-                        k.violation("probe", "successful_probe_did_not_close", s0, f"state after = {s1}")
-                    elif fc1 != 0:
-                        k.violation("probe", "failure_count_not_cleared", s0, f"failure_count={fc1}")
-                    else:
-                        k.probe("probe_success_closed")
-                    clear()
-                else:
-                    del streak[:]
-                    if s1 == "OPEN":
-                        k.violation("early_open", "opened_by_non_failure", "success")
-            elif c == "block":
-                if f_hi:
-                    k.probe("block_with_failures_pending")
-                if fc1 != fc0:
-                    k.violation("block_not_failure", "block_changed_failure_count", "probe" if probe_ctx else "closed",
-                                f"{fc0}->{fc1} executor={ez} assessor={ay}")
-                if s0 == "CLOSED" and s1 != "CLOSED":
-                    k.violation("block_not_failure", "block_opened_breaker", "closed")
-                if probe_ctx and s1 == "OPEN":
-                    k.violation("block_not_failure", "block_reopened_breaker", "probe")
-                if trips1 != trips0:
-                    k.violation("block_not_failure", "block_counted_as_trip", "probe" if probe_ctx else "closed")
-                del streak[:]
-                if probe_ctx and s1 == "CLOSED":
-                    clear()
-            elif c in ("exc", "fail"):
-                f_hi += 1
-                window.append(c)
-                streak.append(c)
-                del cands[:]
-                cands.append([CLOCK.now, c])
-                if probe_ctx:
-                    if s1 != "OPEN":
-                        k.violation("probe", "failed_probe_did_not_reopen", c, f"state before={s0} after={s1}")
-                    else:
-                        k.probe("probe_failed_reopened")
-                else:
-                    if len(streak) >= thr and s1 != "OPEN":
-                        k.violation("late_open", "not_open_after_threshold_consecutive_failures", kinds(streak[-thr:]),
-                                    f"threshold={thr} consecutive failures={streak} state={s1} failure_count={fc1}")
-                    if s1 == "OPEN" and f_hi < thr:
-                        k.violation("early_open", "opened_below_threshold", kinds(window),
-                                    f"threshold={thr} failures in total={f_hi}")
+    # ------------------------------------------------------------------ sequential operations (full automaton)
+    def seq_op(self, op, tr):
+        k, cfg, thr, logic = self.k, self.cfg, self.thr, self.logic
+        cands, window, streak, answered, timeout_us = self.cands, self.window, self.streak, self.answered, self.timeout_us
+        name = op[0]
+        if name == "clock":
+            if op[1] == "rel":
+                base = cands[-1][0] if cands else CLOCK.now
+                target = base + cfg["timeout"] + op[2]
+                k.fault("clock_boundary")
             else:
-                k.probe("neutral_request")
-                f_hi += 1
-                window.append("neutral")
-                del streak[:]
-                cands.append([CLOCK.now, "neutral"])
-                if s0 == "CLOSED" and s1 == "OPEN" and f_hi < thr:
-                    k.violation("early_open", "opened_below_threshold", kinds(window),
-                                f"threshold={thr} possible failures in total={f_hi}")
-                if probe_ctx and s1 == "CLOSED":
-                    clear()
+                target = CLOCK.now + op[2]
+            dt = target - CLOCK.now
+            set_clock(target)
+            k.fault("clock_backward" if dt < 0 else "clock_forward")
+            if dt < 0 and self.stats()[0] != "CLOSED":
+                k.probe("clock_backward_while_open")
+            k.ev("clock", us(CLOCK.now))
+            return True
+        if name == "reset":
+            s0 = self.stats()[0]
+            out = call(self.loop.reset_circuit_breaker, tracer=tr)
+            k.ev("reset", out.brief())
+            if not out.ok:
+                k.violation("returns", out.kind, "reset_circuit_breaker")
+                return False
+            if s0 != "CLOSED":
+                k.probe("reset_while_open")
+            if self.stats()[0] == "CLOSED":
+                self.clear()
+            return True
 
-    if left_closed:
+        pid = op[1]
+        s0, fc0, trips0 = self.stats()
+        bal0 = self.budget.get_balance()
+        now = us(CLOCK.now)
+        rec = self.last = self.invoke(op, tracer=tr)
+        asked, ez, ay = rec["asked"], rec["ez"], rec["ay"]
+        if self.not_returned(rec, s0):
+            k.ev("req", [pid, ez, ay, rec["out"].brief()])
+            return False
+        action, blocked = rec["action"], rec["blocked"]
+        s1, fc1, trips1 = self.stats()
+        spent = bal0 - self.budget.get_balance()
+        k.ev("req", [pid, ez, ay, asked, action, blocked, s0, s1, fc1, spent])
+        if s1 != "CLOSED":
+            self.left_closed = True
+            k.probe("opened" if s1 == "OPEN" else "half_open_seen")
+
+        # ------------------------------------------------ clause: breaker disabled => agents always consulted
+        if not self.enabled:
+            self.judge_disabled(rec, pid in answered)
+            if asked and not ((ez or "").startswith("raise:") or (ay or "").startswith("raise:")):
+                answered[pid] = classify(logic, ez, ay)
+            return True
+
+        elapsed = [now - us(t) for t, _ in cands]
+        isolation_due = s0 == "OPEN" and bool(cands) and all(e < timeout_us for e in elapsed)
+        recovery_due = s0 == "OPEN" and bool(cands) and all(e >= timeout_us for e in elapsed)
+        csite = kinds(c[1] for c in cands)
+        if "fail" in csite or "fail" in streak:
+            k.probe("executor_failure_in_window")
+
+        # ------------------------------------------------ clause: isolation while open
+        if isolation_due:
+            if action != "CIRCUIT_OPEN":
+                k.violation("isolation", "admitted_before_timeout", csite,
+                            f"elapsed={max(elapsed)}us timeout={timeout_us}us action={action} asked={asked}")
+            elif not blocked:
+                k.violation("isolation", "circuit_open_reply_not_blocked", csite)
+            if asked:
+                k.violation("isolation", "agents_invoked_while_open", csite)
+            if spent:
+                k.violation("isolation", "energy_spent_while_open", csite, f"spent={spent}")
+            if 0 < timeout_us - max(elapsed) <= 1000 and action == "CIRCUIT_OPEN":
+                k.probe("isolated_just_below_timeout")
+        # ------------------------------------------------ clause: recovery after the timeout
+        elif recovery_due and action == "CIRCUIT_OPEN":
+            k.violation("recovery", "not_admitted_after_timeout", csite,
+                        f"elapsed={min(elapsed)}us timeout={timeout_us}us")
+        elif recovery_due and min(elapsed) == timeout_us:
+            k.probe("admitted_exactly_at_timeout")
+        if s0 == "CLOSED" and action == "CIRCUIT_OPEN":
+            k.violation("early_open", "circuit_open_reply_while_closed", kinds(window))
+
+        if action == "CIRCUIT_OPEN":
+            k.probe("isolated_request")
+            if not isolation_due:
+                if asked or spent:
+                    k.violation("isolation", "agents_invoked_for_circuit_open_reply", csite, f"asked={asked} spent={spent}")
+                if not blocked:
+                    k.violation("isolation", "circuit_open_reply_not_blocked", csite)
+            return True
+
+        probe_ctx = s0 in ("OPEN", "HALF_OPEN")
+
+        if not asked:
+            # admitted but answered without the agents: a cache hit
+            c = answered.get(pid, "neutral")
+            if s0 != "CLOSED":
+                k.probe("cache_hit_while_not_closed")
+            del streak[:]
+            if c not in ("success", "block"):
+                self.f_hi += 1
+                window.append("cached")
+                cands.append([CLOCK.now, "cached"])
+            if s0 == "CLOSED" and s1 == "OPEN" and (c in ("success", "block") or self.f_hi < thr):
+                k.violation("early_open", "opened_by_cache_hit", kinds(window))
+            if probe_ctx and s1 == "CLOSED":
+                self.clear()
+            return True
+
+        c = classify(logic, ez, ay)
+        if c == "success" and blocked:
+            c = "neutral"
+        if c != "exc":
+            answered[pid] = c
+
+        if c == "success":
+            if probe_ctx:
+                if s1 != "CLOSED":
+                    k.violation("probe", "successful_probe_did_not_close", s0, f"state after = {s1}")
+                elif fc1 != 0:
+                    k.violation("probe", "failure_count_not_cleared", s0, f"failure_count={fc1}")
+                else:
+                    k.probe("probe_success_closed")
+                self.clear()
+            else:
+                del streak[:]
+                if s1 == "OPEN":
+                    k.violation("early_open", "opened_by_non_failure", "success")
+        elif c == "block":
+            if self.f_hi:
+                k.probe("block_with_failures_pending")
+            if fc1 != fc0:
+                k.violation("block_not_failure", "block_changed_failure_count", "probe" if probe_ctx else "closed",
+                            f"{fc0}->{fc1} executor={ez} assessor={ay}")
+            if s0 == "CLOSED" and s1 != "CLOSED":
+                k.violation("block_not_failure", "block_opened_breaker", "closed")
+            if probe_ctx and s1 == "OPEN":
+                k.violation("block_not_failure", "block_reopened_breaker", "probe")
+            if trips1 != trips0:
+                k.violation("block_not_failure", "block_counted_as_trip", "probe" if probe_ctx else "closed")
+            del streak[:]
+            if probe_ctx and s1 == "CLOSED":
+                self.clear()
+        elif c in ("exc", "fail"):
+            self.f_hi += 1
+            window.append(c)
+            streak.append(c)
+            del cands[:]
+            cands.append([CLOCK.now, c])
+            if probe_ctx:
+                if s1 != "OPEN":
+                    k.violation("probe", "failed_probe_did_not_reopen", c, f"state before={s0} after={s1}")
+                else:
+                    k.probe("probe_failed_reopened")
+            else:
+                if len(streak) >= thr and s1 != "OPEN":
+                    k.violation("late_open", "not_open_after_threshold_consecutive_failures", kinds(streak[-thr:]),
+                                f"threshold={thr} consecutive failures={streak} state={s1} failure_count={fc1}")
+                if s1 == "OPEN" and self.f_hi < thr:
+                    k.violation("early_open", "opened_below_threshold", kinds(window),
+                                f"threshold={thr} failures in total={self.f_hi}")
+        else:
+            k.probe("neutral_request")
+            self.f_hi += 1
+            window.append("neutral")
+            del streak[:]
+            cands.append([CLOCK.now, "neutral"])
+            if s0 == "CLOSED" and s1 == "OPEN" and self.f_hi < thr:
+                k.violation("early_open", "opened_below_threshold", kinds(window),
+                            f"threshold={thr} possible failures in total={self.f_hi}")
+            if probe_ctx and s1 == "CLOSED":
+                self.clear()
+        return True
+
+
+# ----------------------------------------------------------------------------------------- run
+SCOPE = None
+
+
+def run(plan, k):
+    global SCOPE
+    if SCOPE is None:
+        SCOPE = [seams.src("operon_ai/topology/loops.py")]
+    if plan.get("family") == "threads":
+        return _run_threads(plan, k)
+    w = World(plan, k)
+    k.key = [plan["config"], plan["ops"]]
+    with SeqTracer(k, SCOPE, 20_000) as tr:
+        for op in plan["ops"]:
+            if not w.seq_op(op, tr):
+                return
+    if w.left_closed:
         k.nontrivial = True
+
+
+def _run_threads(plan, k):
+    cfg = plan["config"]
+    sched = Sched(k, cfg.get("strategy"), switches=plan.get("switches"),
+                  rng=derive(plan.get("_seedpath", "replay"), "sched"), scope=SCOPE, max_steps=40_000)
+    w = World(plan, k, sched)
+    thr, logic, timeout_us = w.thr, w.logic, w.timeout_us
+    k.probe("threads_run")
+    k.key = ["threads", {x: y for x, y in cfg.items() if x != "strategy"}, plan.get("pre"), plan["tasks"], plan.get("post")]
+
+    # ---- sequential pre-phase, judged by the full automaton
+    pre_pure = True          # so far only definite failures / isolated requests / clock moves since construction
+    with SeqTracer(k, SCOPE, 20_000) as tr:
+        for op in plan.get("pre") or []:
+            if not w.seq_op(op, tr):
+                return
+            if op[0] == "reset":
+                pre_pure = False
+            elif op[0] == "req":
+                r = w.last
+                if not (r["action"] == "CIRCUIT_OPEN" or (r["asked"] and classify(logic, r["ez"], r["ay"]) in ("exc", "fail"))):
+                    pre_pure = False
+    q_state, q_count, _ = w.stats()
+    t_phase = CLOCK.now
+    pre_elapsed = [us(t_phase) - us(t) for t, _ in w.cands]
+    certainly_open = (w.enabled and q_state == "OPEN" and bool(w.cands) and all(e < timeout_us for e in pre_elapsed)
+                      and not any(op[0] in ("clock", "reset") for ops in plan["tasks"] for op in ops))
+    if q_state != "CLOSED" and w.cands and all(e >= timeout_us for e in pre_elapsed):
+        k.probe("overlap_while_recovering")
+
+    # ---- overlapping phase
+    recs, samples, clock_moves, resets = [], [], [], []
+
+    def sample(why):
+        s = w.stats(atomic=True)
+        w.tick += 1
+        samples.append((w.tick, s[0], s[1]))
+        return s
+
+    def body(ti, ops):
+        def f():
+            me = sched.cur
+            for oi, op in enumerate(ops):
+                if op[0] == "clock":
+                    if op[1] == "adv" and op[2] > 0:      # forward only while requests overlap
+                        set_clock(CLOCK.now + op[2])
+                        w.tick += 1
+                        clock_moves.append((w.tick, CLOCK.now))
+                        k.fault("clock_forward")
+                        k.ev("clock", us(CLOCK.now))
+                    continue
+                if op[0] == "reset":
+                    me.op = "reset"
+                    out = call(w.loop.reset_circuit_breaker)
+                    me.op = None
+                    w.tick += 1
+                    resets.append(w.tick)
+                    k.ev("reset", out.brief())
+                    if out.kind != "ok":
+                        raise HarnessError(f"reset_circuit_breaker ended {out.kind} inside a scheduled task")
+                    continue
+                sample("before")
+                k.ev("inv", [ti, oi, op[1]])
+                me.op = "req"
+                rec = w.invoke(op)
+                me.op = None
+                rec["task"] = ti
+                out = rec["out"]
+                k.ev("ret", [ti, oi, rec["ez"], rec["ay"], rec["asked"], rec.get("action", out.brief())])
+                if out.kind not in ("ok", "raised"):
+                    raise HarnessError(f"unexpected outcome {out.kind} inside a scheduled task")
+                if w.not_returned(rec, "overlap"):
+                    continue
+                rec["after"] = sample("after")
+                recs.append(rec)
+                # ---- the contract of a CIRCUIT_OPEN reply is per request: blocked, own agents not invoked
+                if rec["action"] == "CIRCUIT_OPEN":
+                    k.probe("isolated_request")
+                    if rec["asked"]:
+                        k.violation("isolation", "agents_invoked_for_circuit_open_reply", "overlap", f"calls={rec['calls']}")
+                    if not rec["blocked"]:
+                        k.violation("isolation", "circuit_open_reply_not_blocked", "overlap")
+        return f
+
+    for ti, ops in enumerate(plan["tasks"]):
+        sched.spawn(body(ti, ops), name=f"t{ti}")
+    sched.run()
+    plan["switches"] = sched.switches
+    k.steps += sched.steps
+    for t in sched.tasks:
+        if t.exc is not None:
+            if isinstance(t.exc, HarnessError):
+                raise t.exc
+            raise HarnessError(f"task {t.name} died: {t.exc!r}")
+    v = sched.verdict
+    if v and v[0] == "deadlock":
+        k.violation("returns", "deadlock", "run", " | ".join(v[1]))
+        return
+    if v and v[0] == "step_budget":
+        k.violation("returns", "no_return_within_step_budget", "threads")
+        return
+    end_state, end_count, _ = w.stats()
+    k.ev("quiescent", [end_state, end_count])
+    if any(s[1] != "CLOSED" for s in samples) or end_state != "CLOSED":
+        w.left_closed = True
+    k.nontrivial = sched.preempt_in_op > 0 and w.left_closed
+    if any(a["task"] != b["task"] and a["inv"] < b["ret"] and b["inv"] < a["ret"] for a in recs for b in recs):
+        k.probe("overlapping_requests")
+
+    # ---- classes from each request's own scripted verdicts
+    fresh_cls = {}
+    for r in recs:
+        if r["action"] == "CIRCUIT_OPEN":
+            r["cls"] = "isolated"
+        elif r["asked"]:
+            c = classify(logic, r["ez"], r["ay"])
+            r["cls"] = "neutral" if (c == "success" and r["blocked"]) else c
+            if r["cls"] != "exc":
+                fresh_cls.setdefault(r["pid"], set()).add(r["cls"])
+        else:
+            r["cls"] = "cached"
+    for r in recs:
+        if r["cls"] == "cached":
+            may = set(fresh_cls.get(r["pid"], ())) | ({w.answered[r["pid"]]} if r["pid"] in w.answered else set())
+            r["could_fail"] = not may or bool(may - {"success", "block"})
+        else:
+            r["could_fail"] = r["cls"] in ("exc", "fail", "neutral")
+
+    if not w.enabled:
+        for r in recs:
+            w.judge_disabled(r, r["pid"] in w.answered or r["pid"] in fresh_cls)
+    else:
+        # ---- clause early_open under overlap.  A sample CLOSED / failure_count 0 (or construction) is a point from
+        #      which the total restarts; every failure counted later belongs to a request that returned later.  Evidence
+        #      of a tripped breaker at tick e needs `threshold` requests that could be failures, returned after the
+        #      restart point and invoked before e (requests of the sequential pre-phase included).
+        zero = [0] + [t for t, st, fc in samples if st == "CLOSED" and fc == 0]
+        if len(zero) > 1:
+            k.probe("closed_zero_sample_during_overlap")
+        evidence = [(t, t, "stats") for t, st, fc in samples if st != "CLOSED"]
+        evidence += [(r["inv"], r["ret"], "reply") for r in recs if r["action"] == "CIRCUIT_OPEN"]
+        pre_fail = w.f_hi if (q_state, q_count) != ("CLOSED", 0) else 0      # possible failures before the phase
+        for lo, e, what in sorted(evidence):
+            z = max(t for t in zero if t < lo)
+            n = sum(1 for r in recs if r["could_fail"] and r["ret"] > z and r["inv"] < e)
+            if z == 0:
+                n += pre_fail
+            if n < thr:
+                k.violation("early_open", "opened_below_threshold", "overlap:" + kinds(r["cls"] for r in recs if r["could_fail"] and r["ret"] > z and r["inv"] < e),
+                            f"threshold={thr}: breaker not CLOSED ({what}) although only {n} request(s) that could be failures "
+                            f"completed since stats last showed CLOSED with failure_count 0")
+                break
+        # ---- clause isolation under overlap: breaker certainly open for the whole phase (no clock / reset op in it)
+        if certainly_open:
+            k.probe("overlap_certainly_open_judged")
+            for r in recs:
+                if r["action"] != "CIRCUIT_OPEN":
+                    k.violation("isolation", "admitted_before_timeout", "overlap:" + kinds(c[1] for c in w.cands),
+                                f"elapsed={max(pre_elapsed)}us timeout={timeout_us}us action={r['action']} asked={r['asked']}")
+                    break
+        # ---- clause late_open at quiescence: since the breaker was CLOSED with nothing counted, every admitted request
+        #      was a definite failure, nobody reset, and there were at least `threshold` of them
+        admitted = [r for r in recs if r["cls"] != "isolated"]
+        pure_phase = bool(admitted) and all(r["cls"] in ("exc", "fail") for r in admitted) and not resets
+        if pure_phase and (q_state, q_count) == ("CLOSED", 0):
+            d, site = len(admitted), kinds(r["cls"] for r in admitted)
+        elif pure_phase and pre_pure:
+            d, site = len(admitted) + len(w.window), kinds([r["cls"] for r in admitted] + w.window)
+        else:
+            d = 0
+        if d >= thr:
+            k.probe("overlap_all_failing_judged")
+            if end_state != "OPEN":
+                k.violation("late_open", "not_open_after_threshold_consecutive_failures", "overlap:" + site,
+                            f"threshold={thr}: {d} admitted requests, all definite failures, state at quiescence {end_state} "
+                            f"failure_count={end_count}")
+
+    # ---- hand the automaton over to the sequential continuation
+    for r in recs:
+        if r["could_fail"]:
+            w.f_hi += 1
+            w.window.append(r["cls"])
+            instants = [r["t_inv"]] + [t for tk, t in clock_moves if r["inv"] < tk < r["ret"]]
+            for t in sorted(set(instants)):
+                w.cands.append([t, r["cls"]])
+    del w.streak[:]
+    for pid, cs in fresh_cls.items():
+        both = set(cs) | ({w.answered[pid]} if pid in w.answered else set())
+        w.answered[pid] = next(iter(both)) if len(both) == 1 else "neutral"
+    if (end_state, end_count) == ("CLOSED", 0):
+        w.clear()
+    with SeqTracer(k, SCOPE, 20_000) as tr:
+        for op in plan.get("post") or []:
+            if op[0] == "req":
+                k.probe("post_continuation_request")
+            if not w.seq_op(op, tr):
+                return
+    k.nontrivial = sched.preempt_in_op > 0 and w.left_closed
